@@ -1740,3 +1740,35 @@ Proof.
   - destruct (eof s); simpl; rewrite andb_false_r; destruct x; try discriminate;
       destruct (wpaused s); discriminate.
 Qed.
+
+(* ---- asynchronously written redirect targets ------------------------------------------------- *)
+Fixpoint asent (closed : bool) (es : list aev) : list wtok :=
+  match es with
+  | [] => []
+  | AvData d :: r => if closed then asent closed r else TData d :: asent closed r
+  | AvEof :: r => if closed then asent closed r else TEof :: asent closed r
+  | AvTurn :: r => asent closed r
+  | AvClose :: r => asent true r
+  end.
+
+Lemma arun_inv es : forall a,
+  a_target (fold_left astep es a) ++ a_queue (fold_left astep es a) =
+  a_target a ++ a_queue a ++ asent (a_chan_closed a) es.
+Proof.
+  induction es as [|e es IH]; intros a; simpl.
+  - rewrite app_nil_r. reflexivity.
+  - rewrite IH. destruct a as [q t c]. destruct e as [d| | |]; simpl.
+    + destruct c; simpl; rewrite <- ?app_assoc; reflexivity.
+    + destruct c; simpl; rewrite <- ?app_assoc; reflexivity.
+    + destruct q as [|x q]; simpl; rewrite <- ?app_assoc; reflexivity.
+    + reflexivity.
+Qed.
+
+(* when wait() returns, the target holds exactly what was sent before the close, in order *)
+Theorem wait_flushes_redirect es : await_done (arun es) = true -> a_target (arun es) = asent false es.
+Proof.
+  unfold await_done, arun. intros H. apply andb_true_iff in H as [_ Hq].
+  pose proof (arun_inv es (mkA [] [] false)) as Hi. simpl in Hi.
+  destruct (a_queue (fold_left astep es (mkA [] [] false))); [|discriminate].
+  rewrite app_nil_r in Hi. exact Hi.
+Qed.
